@@ -4,6 +4,7 @@ package rules
 
 import (
 	"fmt"
+	"go/ast"
 	"go/token"
 	"go/types"
 	"sort"
@@ -105,6 +106,13 @@ func runFxImmut(m *model.Model, s *ob.Set) {
 				}
 				c := fmt.Sprintf("%s/%s", name, p.Name())
 				if ew[fmt.Sprintf("P%d", k)] {
+					if fn.Signature.Recv() == nil && !m.IsVectorKernel(fn) && !carryKernels[fn.Name()] && !ast.IsExported(fn.Name()) && immutAtCallers(m, fn, k) {
+						// an unexported plain helper has no fixed destination/source convention: what it
+						// writes is charged to its callers through the effect summaries, and every call
+						// site hands it a buffer the caller itself may write
+						s.Note(R, c, m.Pos(fn.Pos()), fmt.Sprintf("internal helper writes parameter %s; every call site passes a buffer its caller may write (decided at the callers)", p.Name()))
+						continue
+					}
 					s.Bad(R, c, m.Pos(fn.Pos()), fmt.Sprintf("source slice %s may have elements written", p.Name()))
 				} else {
 					s.Ok(R, c, m.Pos(fn.Pos()), "source slice never written")
@@ -456,4 +464,46 @@ func selfDerivedMant(m *model.Model, v ssa.Value, base ssa.Value) bool {
 		return false
 	}
 	return walk(v, 10) && found
+}
+
+// immutAtCallers: at every call site of helper fn, argument k is rooted only in buffers the calling
+// function may write itself: its own destination (first parameter), a tabled storage parameter, a
+// parameter that the caller in turn is allowed to write by this same criterion, or fresh/pooled
+// memory. There must be at least one call site.
+func immutAtCallers(m *model.Model, fn *ssa.Function, k int) bool {
+	sites := 0
+	for _, caller := range m.Funcs {
+		if !m.InDecimalPkg(caller) {
+			continue
+		}
+		live := m.Live(caller)
+		cname := m.FuncName(caller)
+		for _, b := range caller.Blocks {
+			if !live[b.Index] {
+				continue
+			}
+			for _, in := range b.Instrs {
+				cal, c := model.Callee(in)
+				if cal != fn || k >= len(c.Args) {
+					continue
+				}
+				sites++
+				for l := range m.RootsOf(c.Args[k]) {
+					switch {
+					case l == "fresh" || l == "pool" || l == "nil":
+					case l == "P0" && m.IsWordSlice(caller.Params[0].Type()):
+					case strings.HasPrefix(l, "P") && !strings.Contains(l, "."):
+						var pk int
+						fmt.Sscanf(l, "P%d", &pk)
+						if _, ok := storageParams[cname][pk]; !ok {
+							return false
+						}
+					default:
+						return false
+					}
+				}
+			}
+		}
+	}
+	return sites > 0
 }
